@@ -484,6 +484,8 @@ def run(ctx):
         'pass', 'sibling label checks agree', 'error categories raised',
         'block matching outcomes', 'literal range checks',
         'passes independent of optimisation level / debug flag',
+        'child_fields lists every node-valued attribute (the checking '
+        'passes reach every statement)',
     ]
     ctx.not_decided = ['that the reported line is the right line for every '
                        'nesting; completeness of the rule catalogue beyond '
@@ -496,6 +498,8 @@ def run(ctx):
     block_matching(ctx)
     literal_checks(ctx)
     level_independence(ctx, 'C05')
+    from .. import grammar_shapes
+    grammar_shapes.check_child_fields(ctx, 'C05')
     return ('Table agreement between node names and pass handler names; a '
             'located-ness rule over all CompileError/SyntaxError '
             'constructions; obligation/discharge analysis between code '
